@@ -5,10 +5,11 @@ import (
 	"bytes"
 	"errors"
 	"fmt"
-	"icecheck/iceref"
 	"io"
 	"math"
 	"os"
+	"os/exec"
+	"path/filepath"
 	"runtime"
 	"strings"
 	"sync"
@@ -629,6 +630,8 @@ func legC14(e *Engine) []Violation {
 	}
 	var vs []Violation
 	reused := 0
+	crossRuns := 0
+	defer func() { e.count("targets-built-in-fresh-processes-with-and-without-history", crossRuns) }()
 	// sequential on purpose: the pool is global state
 	for i := 0; i < ncase; i++ {
 		r := NewRng(e.seed, "C14", uint64(i))
@@ -646,16 +649,16 @@ func legC14(e *Engine) []Violation {
 		}
 		// process-wide state outside the pooled builder (e.g. a codec set up by the first build of
 		// the process) has ONE history inside this process, so two builds here can never differ by
-		// it.  The frozen reference copy of the package has its own globals and its own history:
-		// the same batch must give the same bytes there (the format is pinned by C10).
-		if rs, _, err := iceref.VerifNew(toDocs(target), normFunc(cb.c.Norm), mode); err == nil {
-			if rb, _, err := persist(rs); err == nil && !bytes.Equal(rb, cold) {
+		// it.  Every few targets: the same batch is built in two FRESH processes of this very binary,
+		// once as the first build and once after a tiny and a large batch; the hashes must agree.
+		if i%8 == 0 {
+			if msg := crossProcess(cb, target, mode); msg != "" {
 				sg := cb.addBuild(target, mode, "hook")
 				_ = sg
-				vs = append(vs, Violation{Prop: "C14", CaseID: cb.c.ID, Kind: "fault", Case: cb.c,
-					Detail: fmt.Sprintf("the bytes New produces for this batch (%d) differ from the bytes the frozen reference copy of the package produces for the same batch (%d): the output depends on process-wide state with a different history (or the format changed: see C10)", len(cold), len(rb))})
+				vs = append(vs, Violation{Prop: "C14", CaseID: cb.c.ID, Kind: "fault", Case: cb.c, Detail: msg})
 				continue
 			}
+			crossRuns++
 		}
 		emptyPool()
 		// history
@@ -1280,4 +1283,55 @@ func legC11(e *Engine) []Violation {
 		e.count("segments-above-1MiB", 1)
 	}
 	return vs
+}
+
+// crossProcess builds `target` in two fresh processes of this binary (see cmdBuildHash): alone,
+// and after a one-document batch and a 300-document batch.  "" if the bytes agree.
+func crossProcess(cb *caseBuilder, target []Doc, mode uint32) string {
+	exe, err := os.Executable()
+	if err != nil {
+		return ""
+	}
+	c := &Case{ID: cb.c.ID + "x", Norm: cb.c.Norm}
+	tiny := []Doc{{{Name: []byte("_id"), Length: 1, Store: true, Value: []byte("a"), Terms: []TermOcc{{Term: []byte("a"), Freq: 1}}}}}
+	big := make([]Doc, 300)
+	for d := range big {
+		id := []byte(fmt.Sprintf("h%d", d))
+		big[d] = Doc{{Name: []byte("_id"), Length: 1, Store: true, Value: id, Terms: []TermOcc{{Term: id, Freq: 1}}},
+			{Name: []byte("body"), Length: 3, Store: true, Value: []byte("some stored text that repeats, some stored text that repeats"), Terms: []TermOcc{{Term: []byte("some"), Freq: 2}, {Term: []byte("text"), Freq: 1}}}}
+	}
+	dir := filepath.Join(workDir(), "tmp")
+	_ = os.MkdirAll(dir, 0o755)
+	run := func(first, second []Doc, history bool) string {
+		c.Segs = []SegDef{{Kind: "build", Mode: 1024, API: "hook", Docs: first}, {Kind: "build", Mode: 1024, API: "hook", Docs: second}, {Kind: "build", Mode: mode, API: "hook", Docs: target}}
+		p := filepath.Join(dir, fmt.Sprintf("c14-%d-%d.case", os.Getpid(), atomic.AddUint64(&tmpSeq, 1)))
+		f, err := os.Create(p)
+		if err != nil {
+			return "run-error"
+		}
+		c.Write(f)
+		f.Close()
+		defer os.Remove(p)
+		args := []string{"buildhash", "-file", p}
+		if history {
+			args = append(args, "-history")
+		}
+		out, err := exec.Command(exe, args...).Output()
+		if err != nil {
+			return "run-error"
+		}
+		return strings.TrimSpace(string(out))
+	}
+	alone := run(tiny, big, false)
+	afterSmallFirst := run(tiny, big, true)
+	afterLargeFirst := run(big, tiny, true)
+	for _, x := range []string{alone, afterSmallFirst, afterLargeFirst} {
+		if x == "run-error" {
+			return "" // a framework problem, not the property
+		}
+	}
+	if alone != afterSmallFirst || alone != afterLargeFirst {
+		return fmt.Sprintf("the bytes New produces for the target batch depend on what was built before IN THE SAME PROCESS (sha256 / length): %s as the first build of a fresh process, %s after a 1-document then a 300-document batch, %s after the 300-document then the 1-document batch (process-wide state outside the pooled builder)", alone, afterSmallFirst, afterLargeFirst)
+	}
+	return ""
 }
